@@ -43,22 +43,21 @@ def c14_history(a: int, b: int, c: int, boost: int, depth: int) -> bool:
     pre: 0 <= a < NT and 0 <= b < NT and 0 <= c < NT and 0 <= boost <= 1 and 0 <= depth <= 2
     post: _
     """
-    a, b, c, boost, depth = pick(a, 0, NT), pick(b, 0, NT), pick(c, 0, NT), pick(boost, 0, 2), pick(depth, 0, 3)
+    depth, b, boost = pick(depth, 0, 3), pick(b, 0, NT), pick(boost, 0, 2)
+    a = pick(a, 0, NT) if depth >= 1 else 0          # indices of earlier calls are only enumerated when those calls happen
+    c = pick(c, 0, NT) if depth >= 2 else 0
     with concrete():
-        if depth < 2 and c != 0 or depth < 1 and a != 0:
-            ok = True                      # fewer earlier calls: the unused indices are irrelevant
-        else:
-            w = mkw(boost)
-            if depth >= 2:
-                w.wrap_file(TEXTS[c], module_name="mod")
-            if depth >= 1:
-                w.wrap_file(TEXTS[a], module_name="mod")
-            got = w.wrap_file(TEXTS[b], module_name="mod")
-            want = mkw(boost).wrap_file(TEXTS[b], module_name="mod")
-            ok = got == want
-            if not ok:
-                _fail(earlier=[TEXTS[c], TEXTS[a]][2 - depth:], text=TEXTS[b], boost=boost,
-                      diff=[(x, y) for x, y in zip(got.split("\n"), want.split("\n")) if x != y][:4], got_tail=got[-300:], want_tail=want[-300:])
+        w = mkw(boost)
+        if depth >= 2:
+            w.wrap_file(TEXTS[c], module_name="mod")
+        if depth >= 1:
+            w.wrap_file(TEXTS[a], module_name="mod")
+        got = w.wrap_file(TEXTS[b], module_name="mod")
+        want = mkw(boost).wrap_file(TEXTS[b], module_name="mod")
+        ok = got == want
+        if not ok:
+            _fail(earlier=[TEXTS[c], TEXTS[a]][2 - depth:], text=TEXTS[b], boost=boost,
+                  diff=[(x, y) for x, y in zip(got.split("\n"), want.split("\n")) if x != y][:4], got_tail=got[-300:], want_tail=want[-300:])
     reached({"depth": depth, "a": a, "b": b, "boost": boost} if (not ok or (a == b and depth == 1 and boost)) else None)
     return ok
 
